@@ -170,12 +170,62 @@ impl BudgetReader {
     }
 }
 
+/// Second and third fault-free pass over the same scenario through `Iterator::count` and
+/// `Iterator::last` (which a library may specialise): both must describe the sequence the
+/// `next()` pass produced.
+fn count_last_pass(sc: &StreamScenario, sut: &Sut, run: &Run) -> Option<Violation> {
+    let mk = || {
+        let world: Shared = Arc::new(Mutex::new(World::new(sc, Arc::new(sc.stream.clone()), false)));
+        BudgetReader {
+            inner: SimReader(world.clone()),
+            world,
+            max_calls: run.read_calls + 4,
+            aux: Arc::new(Mutex::new(Aux::default())),
+        }
+    };
+    verif::set_stream_buffer_spare(sc.spare);
+    let r = catch_unwind(AssertUnwindSafe(|| sut.stream_count_last(mk(), mk())));
+    verif::set_stream_buffer_spare(None);
+    let _ = verif::take_point_counts();
+    let n_items = run.got.len() + run.item_errs.len();
+    match r {
+        Err(p) => {
+            let (budget, text) = panic_text(p);
+            Some(if budget {
+                viol("livelock", format!("count()/last() needed more than the {} read calls of the next() pass", run.read_calls))
+            } else {
+                viol("panic", format!("panic in count()/last() of a fault-free stream search: {}", text))
+            })
+        }
+        Ok(Err(e)) => Some(viol("rejected", format!("stream constructor rejected on the second pass: {}", e))),
+        Ok(Ok((n, last))) => {
+            if n != n_items {
+                return Some(viol("match-seq-mismatch", format!(
+                    "count() of the stream iterator is {}, the next() loop over the same reads yielded {} items", n, n_items)));
+            }
+            let last = match last {
+                None => None,
+                Some(Ok(m)) => Some(m3(m)),
+                Some(Err(e)) => {
+                    return Some(viol("spurious-error", format!("last() yielded Err({:?}) on a fault-free stream", e.kind())));
+                }
+            };
+            let exp_last = run.got.last().map(|x| x.0);
+            if last != exp_last {
+                return Some(viol("match-seq-mismatch", format!(
+                    "last() of the stream iterator is {:?}, the next() loop ended with {:?}", last, exp_last)));
+            }
+            None
+        }
+    }
+}
+
 pub fn silence_panics() {
     std::panic::set_hook(Box::new(|_| {}));
 }
 
 fn panic_text(p: Box<dyn std::any::Any + Send>) -> (bool, String) {
-    if p.is::<BudgetPanic>() {
+    if p.is::<BudgetPanic>() || p.is::<crate::sut::StopDrive>() {
         return (true, "seam-call budget exceeded".into());
     }
     let s = if let Some(s) = p.downcast_ref::<&str>() {
@@ -270,6 +320,7 @@ pub fn run_once_shared(
     let mut budget_exceeded = false;
     let mut closure_matches: Vec<(M, bool)> = Vec::new();
 
+    crate::sut::set_drive(if sc.op == StreamOp::Find { sc.drive } else { 0 });
     let result = catch_unwind(AssertUnwindSafe(|| match sc.op {
         StreamOp::Find => {
             let w2 = world.clone();
@@ -385,6 +436,7 @@ pub fn run_once_shared(
         }
     }
     verif::set_stream_buffer_spare(None);
+    crate::sut::set_drive(0);
     let mut aux = aux.lock().unwrap();
     absorb_sites(&mut aux);
     let mut w = lock(&world);
@@ -558,6 +610,9 @@ pub fn judge_fault_free(
                 return Some(viol("match-seq-mismatch", format!(
                     "stream search ended after {} matches; find_iter yields {} (first missing {:?})",
                     run.got.len(), exp.len(), exp[run.got.len()])));
+            }
+            if sc.drive == 3 && sc.faults.is_empty() {
+                return count_last_pass(sc, sut, run);
             }
             None
         }
